@@ -15,3 +15,20 @@ func (w *worker) noteStrFact(kind string, src *Term, outs ...*Term) {
 
 func registerStringStubs() {}
 
+
+// strValue returns the concrete string a model assigns to a Str input. The
+// replay-side reconstruction of structured strings (tokens, CIDRs, numbers)
+// from the recorded facts happens in strinv.go.
+func (w *worker) strValue(in *Term, m *model) string {
+	if m == nil {
+		return ""
+	}
+	s, ok := m.str[in.name]
+	if !ok {
+		return "~" + in.name + "~"
+	}
+	if len(s) > 0 && s[0] == 0 {
+		return "~" + s[7:] + "~"
+	}
+	return s
+}
